@@ -278,5 +278,7 @@ def run(ctx):
     rule_inherit(ctx, py)
     rule_owner(ctx, py)
     rule_state(ctx, py)
+    from .. import lints
+    lints.run(ctx, "C04", ctx.py, ["units", "librdengine", "rdsystem", "coarsegrain", "value_processing"])
     ctx.assume("equality of the numbers after rounding is not decided; the dimensions assumed for the marshalled inputs "
                "are those of the Python arguments in the same FFI positions (C20.DIMS)")
